@@ -213,7 +213,11 @@ def run_dispatch_seq(rp, seq):
     install_payload_module()
     orig_environ = os.environ
     saved = dict(os.environ)
-    out0, err0 = sys.stdout, sys.stderr
+    real_out, real_err = sys.stdout, sys.stderr
+    # the worker has streams of its own (a worker class that logs to a file or a buffer): what a request does to
+    # sys.stdout / sys.stderr must be undone to THESE objects, not to the interpreter's original streams
+    out0, err0 = io.StringIO(), io.StringIO()
+    sys.stdout, sys.stderr = out0, err0
     res = []
     try:
         for i, (mode, pl, tenv) in enumerate(seq):
@@ -244,7 +248,7 @@ def run_dispatch_seq(rp, seq):
                         'env': env_view(os.environ), 'cenv': c_env(), 'real': type(os.environ) is type(orig_environ),
                         'stdio_restored': sys.stdout is out0 and sys.stderr is err0})
     finally:
-        sys.stdout, sys.stderr = out0, err0
+        sys.stdout, sys.stderr = real_out, real_err
         os.environ = orig_environ
         for k in list(os.environ):
             if k.startswith('C20K'): del os.environ[k]
